@@ -130,6 +130,76 @@ package mdns
 //@   requires cb != nil && a.serviceElements != nil
 //@   modifies *
 
+// ======================= the Avahi provider across daemon restarts (C19) =======================
+// What the contracts decide, call by call (the fault sequences of the property are sequences of these calls and of
+// the reconnect goroutine's steps): Announce records the request before it talks to the daemon (A2), so the stored
+// data always is the most recent request; Unannounce and Shutdown clear it (U1, S2); the reconnect loop restarts the
+// provider only through start(..., reconnect=true), which refuses once a manual shutdown is recorded and then changes
+// nothing (G1), and re-announces only after a successful restart (R2), only if an announcement is requested at that
+// moment, and with exactly the stored data (R1) - its own view of the provider is havoc'd while it waits; the
+// disconnect callback starts the loop only when reconnecting is wanted (C1); a restart keeps the stored announcement
+// (G3), hands the browser the channels the listener reads (G4) and starts a listener only if none runs (G5).
+//@ iface avahi.ServerInterface.Setup(eventCB)
+//@ iface avahi.ServerInterface.Start()
+//@ iface avahi.ServerInterface.Shutdown()
+//@ iface avahi.ServerInterface.GetAPIVersion()
+//@ iface avahi.ServerInterface.ServiceBrowserNew(addChan, removeChan, iface, protocol, serviceType, domain, flags)
+//@ iface avahi.ServerInterface.ServiceBrowserFree(r)
+//@ iface avahi.ServerInterface.EntryGroupNew()
+//@   ensures result.1 == nil ==> result.0 != nil
+//@ iface avahi.ServerInterface.EntryGroupFree(r)
+//@ iface avahi.EntryGroupInterface.AddService(iface, protocol, flags, name, serviceType, domain, host, port, txt)
+//@ iface avahi.EntryGroupInterface.Commit()
+//@ typeinv (a *AvahiProvider) a.avServer != nil && a.serviceElements != nil
+// a channel the provider holds is open: Shutdown closes the three channels and forgets them in the same critical
+// section, a restart makes new ones - so neither the stop token nor a second Shutdown can hit a closed channel
+//@ macro AVOPEN(a) := ((a.shutdownChan != nil ==> !a.shutdownChan.$chclosed) && (a.addServiceChan != nil ==> !a.addServiceChan.$chclosed) && (a.removeServiceChan != nil ==> !a.removeServiceChan.$chclosed)
+//@+   && ((a.shutdownChan == nil) == (a.addServiceChan == nil)) && ((a.addServiceChan == nil) == (a.removeServiceChan == nil))
+//@+   && (a.shutdownChan != nil ==> ref(a.shutdownChan) != ref(a.addServiceChan) && ref(a.shutdownChan) != ref(a.removeServiceChan) && ref(a.addServiceChan) != ref(a.removeServiceChan))
+//@+   && (a.avBrowser != nil ==> a.shutdownChan != nil))
+//@ objinv (a *AvahiProvider) [C19,C08] P1-open-channels: @AVOPEN(a)
+//@ modset avstart(a) := a.autoReconnect, a.resolveCB, a.manualShutdown, a.setupSuccessful, a.shutdownChan, a.addServiceChan, a.removeServiceChan, a.avBrowser, a.listenerRunning
+//@ func (a *AvahiProvider).start(autoReconnect, cb, reconnect) [C19,C08]
+//@   requires cb != nil && @AVOPEN(a)
+//@   ensures [C19,C08] P1-open-channels: @AVOPEN(a)
+//@   ensures [C19] G1-stays-down: reconnect && old(a.manualShutdown) ==> !result && a.manualShutdown && a.autoReconnect == old(a.autoReconnect) && a.avBrowser == old(a.avBrowser) && a.listenerRunning == old(a.listenerRunning) && callcount(Setup) == 0 && spawncount() == 0
+//@   ensures [C19] G2-up: result ==> a.setupSuccessful && a.avBrowser != nil && a.listenerRunning && a.autoReconnect && !a.manualShutdown && a.addServiceChan != nil && a.removeServiceChan != nil && a.shutdownChan != nil
+//@   ensures [C19] G3-keeps-request: a.mdnsServiceData == old(a.mdnsServiceData) && a.avEntryGroup == old(a.avEntryGroup)
+//@   atcall ServiceBrowserNew [C19] G4-channels: $0 == a.addServiceChan && $1 == a.removeServiceChan && $0 != nil && $1 != nil
+//@   atcall chanListener [C19] G5-one-listener: $go && !old(a.listenerRunning)
+//@   modifies @avstart(a)
+//@ func (a *AvahiProvider).Start(autoReconnect, cb) entry [C19,C08]
+//@   requires cb != nil
+//@   ensures [C19] G2-up: result ==> a.setupSuccessful && a.avBrowser != nil && a.listenerRunning && !a.manualShutdown
+//@   ensures [C19] G3-keeps-request: a.mdnsServiceData == old(a.mdnsServiceData) && a.avEntryGroup == old(a.avEntryGroup)
+//@   modifies @avstart(a)
+//@ func (a *AvahiProvider).Announce(serviceName, port, txt) entry [C19,C08]
+//@   ensures [C19] A2-recorded: a.mdnsServiceData != nil && a.mdnsServiceData.Name == serviceName && a.mdnsServiceData.Port == port && a.mdnsServiceData.Txt == txt
+//@   ensures [C19] A3-committed: result == nil ==> a.avEntryGroup != nil && callcount(Commit) == 1
+//@   ensures [C19] A4-failed: result != nil ==> a.avEntryGroup == old(a.avEntryGroup)
+//@   modifies a.mdnsServiceData, a.avEntryGroup
+//@ func (a *AvahiProvider).Unannounce() entry [C19,C08]
+//@   ensures [C19] U1-withdrawn: a.mdnsServiceData == nil && a.avEntryGroup == nil && callcount(EntryGroupFree) == ite(old(a.avEntryGroup) != nil, 1, 0)
+//@   modifies a.mdnsServiceData, a.avEntryGroup
+//@ func (a *AvahiProvider).Shutdown() entry [C19,C08]
+//@   ensures [C19] S1-manual: a.manualShutdown
+//@   ensures [C19] S2-down: old(a.setupSuccessful) ==> !a.autoReconnect && a.avBrowser == nil && a.avEntryGroup == nil && a.mdnsServiceData == nil && !a.listenerRunning && a.shutdownChan == nil && a.addServiceChan == nil && a.removeServiceChan == nil
+//@   ensures [C19] S3-nothing-started: callcount(Setup) == 0 && callcount(ServiceBrowserNew) == 0 && callcount(EntryGroupNew) == 0 && spawncount() == 0
+//@   modifies a.manualShutdown, a.autoReconnect, a.avBrowser, a.listenerRunning, a.shutdownChan, a.addServiceChan, a.removeServiceChan, a.mdnsServiceData, a.avEntryGroup, a.shutdownChan.$chclosed, a.addServiceChan.$chclosed, a.removeServiceChan.$chclosed
+//@ func (a *AvahiProvider).avahiCallback(event) entry [C19,C08]
+//@   atcall attemptReconnect [C19] C1-wanted: $go && !a.manualShutdown && a.autoReconnect && event == avahi.Disconnected
+//@   ensures [C19] C2-otherwise-nothing: old(a.manualShutdown) || !old(a.autoReconnect) || event != avahi.Disconnected ==> spawncount() == 0
+//@ func (a *AvahiProvider).attemptReconnect(cb) entry [C19,C08]
+//@   requires cb != nil
+//@   interference a: @avstart(a), a.mdnsServiceData, a.avEntryGroup
+//@   atcall start [C19] R3-guarded: $3
+//@   atcall Announce [C19] R1-current: a.mdnsServiceData != nil && $1 == a.mdnsServiceData.Name && $2 == a.mdnsServiceData.Port && $3 == a.mdnsServiceData.Txt
+//@   atcall Announce [C19] R2-restarted: called(start) && lastresult(start)
+//@   ensures [C19] R4-no-public-start: callcount(Start) == 0
+//@   modifies @avstart(a), a.mdnsServiceData, a.avEntryGroup
+//@ loop (a *AvahiProvider).attemptReconnect #0
+//@   invariant @AVOPEN(a)
+
 // ======================= lock discipline (C20) =======================
 //@ guarded MdnsManager.entries by MdnsManager.mux
 //@ guarded MdnsManager.isAnnounced by MdnsManager.muxAnnounced
